@@ -406,7 +406,7 @@ INFO = {
     ],
     'bounds': {
         'quick': 'all byte values; |a|+|b| <= 9 (every split position); receive: stream <= 10 bytes, 3 short reads, nothing beyond the frame consumed and the next frame received intact; handshake: streams assembled from fields (first words in {4,5,0}, lengths 0..2, both signature verdicts and the echo, 0-2 trailing application frames), every split into two chunks; every split into three chunks for the valid streams; per-phase lemma: from each of the 5 handshake phases (id/reply lengths 1..3), ALL byte values, |a|+|b| <= 10, every split',
-        'thorough': 'per-phase lemma |a|+|b| <= 12; all byte values; |a|+|b| <= 12 (every split position, two complete frames fit); receive: stream <= 12 bytes; handshake: same fields, every split into two and three chunks',
+        'thorough': 'per-phase lemma |a|+|b| <= 11; all byte values; |a|+|b| <= 11 (every split position; 12 ran for more than half an hour); receive: stream <= 12 bytes; handshake: same fields, every split into two and three chunks',
     },
     'assumptions': [
         'struct.unpack(">I"/">L"/">II") replaced by a pure-Python big-endian decode (differential-tested against struct on every run)',
@@ -423,7 +423,7 @@ INFO = {
 def obligations(tier):
     out = []
     ref = 'vp.harness.c14:framing_body'
-    L = 9 if tier == 'quick' else 12
+    L = 9 if tier == 'quick' else 11
     for which in ('hand', 'db', 'log'):
         for na in range(0, L + 1):
             out.append(
@@ -466,7 +466,7 @@ def obligations(tier):
     out.append(ob.make('handshake', 'handshake', 'vp.harness.c14:handshake_body', 'n1: int, verd: int, ' + hs_sig,
                        [f'0 <= n1 < 3 and 0 <= w2 < 3 and 0 <= n2 < 3 and 0 <= verd < 8 and 0 <= app < {len(APPS)}', '0 <= c1 <= 40 and c1 <= c2 <= 40'],
                        "{'w1': 0, 'n1': n1, 'w2': w2, 'n2': n2, 'verd': verd, 'app': app, 'c1': c1, 'c2': c2}", timeout=600, twin=True))
-    PL = 10 if tier == 'quick' else 12
+    PL = 10 if tier == 'quick' else 11
     for phase, ns in ((1, (4,)), (2, (4,)), (3, (1, 2, 3)), (4, (8,)), (5, (1, 2, 3))):
         for nn in ns:
             for na in range(0, PL + 1):
